@@ -42,7 +42,7 @@ ID = "C18"
 LEVEL = "exploration"
 TECHNIQUE = "differential execution (plain call vs decorated call) on a real event loop with executor threads; thread-identity and heartbeat probes; context probes inside and after the call"
 RULE = (
-    "cases = (decorator, function or bound method, signature, call form, outcome kind, executor, scope depth); the product over 7 signatures x their call forms x {value, raise} x "
+    "cases = (decorator, function or bound method, signature, call form, outcome kind, executor, scope depth); the product over 7 signatures x their call forms x {value, raise Exception, raise BaseException, cancelled inside (traced async)} x "
     "decorator variants x depth 0-3 is enumerated; non-trivial = the call uses keyword arguments or is a bound method or raises; distinct by case tuple"
 )
 ASSUMPTIONS = [
@@ -62,6 +62,10 @@ CV: contextvars.ContextVar[str] = contextvars.ContextVar("hv_c18", default="unse
 
 
 class Hand(Exception):
+    pass
+
+
+class HandBase(BaseException):
     pass
 
 
@@ -219,8 +223,9 @@ async def one_call(C: Ctx, case: dict[str, Any]) -> None:
         "asynchronous": asynchronous, "asynchronous-call": lambda f: asynchronous()(f), "asynchronous-executor": lambda f: asynchronous(executor=pool)(f),
         "wrap_async": wrap_async, "wrap_async-of-async": wrap_async, "traced": traced, "traced-async": traced,
     }[deco]
-    hand = Hand("handed") if outcome == "raise" else None
-    nontrivial = bool(kwargs) or is_method or outcome == "raise"
+    hand: BaseException | None = Hand("handed") if outcome == "raise" else (HandBase("handed-base") if outcome == "raise-base" else None)
+    cancel_inside = outcome == "cancelled"  # traced-async only: the call is cancelled while suspended inside the function
+    nontrivial = bool(kwargs) or is_method or outcome != "value"
     R.case(case, nontrivial=nontrivial)
     if is_method:
         R.count("method_calls")
@@ -242,7 +247,7 @@ async def one_call(C: Ctx, case: dict[str, Any]) -> None:
         except BaseException as exc:  # noqa: BLE001
             ref = ("raise", exc)
         # ---- decorated call -----------------------------------------------------------------------------------------
-        ctl: dict[str, Any] = {"raise": hand, "leak": leak}
+        ctl: dict[str, Any] = {"raise": hand, "leak": leak, "cancel_inside": cancel_inside and deco == "traced-async"}
         if deco.startswith("traced"):
             ctl["log"] = "traced-body"
         if deco in ("wrap_async-of-async", "traced-async"):
@@ -251,6 +256,11 @@ async def one_call(C: Ctx, case: dict[str, Any]) -> None:
             async def async_version(ctl: dict[str, Any], *a: Any, **k: Any) -> Any:
                 """doc of async version"""
                 await asyncio.sleep(0)
+                if ctl.get("cancel_inside"):
+                    t = asyncio.current_task()
+                    assert t is not None
+                    t.cancel()  # an external-style cancellation delivered at the next suspension inside the function
+                    await asyncio.sleep(0)
                 return base(ctl, *a, **k)
 
             async_version.__name__ = getattr(base, "__name__", "async_version")
@@ -283,12 +293,18 @@ async def one_call(C: Ctx, case: dict[str, Any]) -> None:
             got: tuple[str, Any] = ("value", res)
         except BaseException as exc:  # noqa: BLE001
             got = ("raise", exc)
+            if isinstance(exc, asyncio.CancelledError):
+                t = asyncio.current_task()
+                while t is not None and t.cancelling():
+                    t.uncancel()
         if blocker is not None:
             blocker["release"].set()
             await hb
         after_probe = _probe()
         # ---- transparent ------------------------------------------------------------------------------------------
-        if ref[0] == "value":
+        if ctl["cancel_inside"]:
+            ok = got[0] == "raise" and isinstance(got[1], asyncio.CancelledError)
+        elif ref[0] == "value":
             ok = got[0] == "value" and same_struct(got[1], ref[1])
         else:
             ok = got[0] == "raise" and (got[1] is ref[1] or (ref[1] is not hand and type(got[1]) is type(ref[1]) and str(got[1]) == str(ref[1])))
@@ -311,7 +327,7 @@ async def one_call(C: Ctx, case: dict[str, Any]) -> None:
         if deco.startswith("asynchronous"):
             keep = after_probe["R1"] == caller_probe["R1"] and after_probe["cv"] == caller_probe["cv"]
             R.monitor("no-leak", keep, where={**where, "kind": "context-leaked-back", "leak_attempted": leak}, detail=f"before the call R1={caller_probe['R1']} cv={caller_probe['cv']}; after it R1={after_probe['R1']} cv={after_probe['cv']}", case=case)
-        if deco.startswith("traced") and got[0] == ref[0]:
+        if deco.startswith("traced") and (got[0] == ref[0] or ctl["cancel_inside"]):
             msgs = []
             for r in C.capture.records[n0:]:
                 try:
@@ -320,7 +336,10 @@ async def one_call(C: Ctx, case: dict[str, Any]) -> None:
                     msgs.append(str(r.msg))
             label = getattr(plain, "__name__", "?")
             tagged = [m for m in msgs if "inside traced-body" in m]
-            R.monitor("traced-scope", bool(tagged) and all(f"[{label}]" in m for m in tagged), where={**where, "kind": "scope-not-named-after-function"}, detail=f"log lines inside the traced function {tagged!r}, expected a scope named {label!r}", case=case)
+            if ctl["cancel_inside"]:
+                pass  # the function was cancelled before it reached its log line
+            else:
+                R.monitor("traced-scope", bool(tagged) and all(f"[{label}]" in m for m in tagged),     where={**where, "kind": "scope-not-named-after-function"}, detail=f"log lines inside the traced function {tagged!r}, expected a scope named {label!r}", case=case)
             case["_trace_expect"] = (label, args, kwargs, got, 2 if is_method else 1)
 
     await in_depth(depth, body, completions)
@@ -343,7 +362,7 @@ async def one_call(C: Ctx, case: dict[str, Any]) -> None:
         rt = [s for s in seen if isinstance(s, ResultTrace)]
         ok_a = len(at) >= 1 and any((a.args is not MISSING and len(a.args) == len(args) + lead and all(x is y for x, y in zip(a.args[lead:], args))) and
                                     ((a.kwargs is MISSING and not kwargs) or (a.kwargs is not MISSING and dict(a.kwargs) == kwargs)) for a in at)
-        ok_r = len(rt) >= 1 and any((r.result is got[1]) or (got[0] == "value" and same_struct(r.result, got[1])) for r in rt)
+        ok_r = len(rt) >= 1 and any((r.result is got[1]) or (got[0] == "value" and same_struct(r.result, got[1])) or (isinstance(got[1], asyncio.CancelledError) and isinstance(r.result, asyncio.CancelledError)) for r in rt)
         R.monitor("traced-scope", m is not None and ok_a and ok_r, where={**where, "kind": "trace-metrics-missing-or-wrong", "args_ok": ok_a, "result_ok": ok_r},
                   detail=f"enclosing scope's merged metrics: ArgumentsTrace {at!r} ResultTrace {rt!r}; call args {args!r} kwargs {kwargs!r} outcome {got!r}", case=case)
     case.pop("_trace_expect", None)
@@ -409,14 +428,18 @@ def cases(tier: str, rng: random.Random):  # noqa: ANN201
             if fname == "method" and deco in ("wrap_async-of-async", "traced-async", "asynchronous-call"):
                 continue
             nforms = len(METHOD_FORMS if fname == "method" else FORMS[fname])
-            for form_i, outcome, depth in itertools.product(range(nforms), ("value", "raise"), depths):
+            for form_i, outcome, depth in itertools.product(range(nforms), ("value", "raise", "raise-base", "cancelled"), depths):
+                if outcome == "cancelled" and deco != "traced-async":
+                    continue
+                if outcome == "raise-base" and (form_i + depth) % 2:
+                    continue
                 yield {"deco": deco, "fn": fname, "form": form_i, "outcome": outcome, "depth": depth, "block": (form_i + depth) % 3 == 0, "leak": (form_i + depth) % 2 == 0}
     for _ in range({"quick": 600, "thorough": 20000}[tier]):
         fname = rng.choice([*FUNCS, "method", "method"])
         deco = rng.choice(DECOS[:4] if fname == "method" and rng.random() < 0.8 else DECOS)
         if fname == "method" and deco in ("wrap_async-of-async", "traced-async", "asynchronous-call"):
             deco = "asynchronous"
-        yield {"deco": deco, "fn": fname, "form": rng.randrange(5), "outcome": rng.choice(["value", "raise"]), "depth": rng.randint(0, 3), "block": rng.random() < 0.3, "leak": rng.random() < 0.5}
+        yield {"deco": deco, "fn": fname, "form": rng.randrange(5), "outcome": rng.choice(["value", "raise", "raise-base"]), "depth": rng.randint(0, 3), "block": rng.random() < 0.3, "leak": rng.random() < 0.5}
 
 
 def run(R: Recorder, tier: str, seed: int, shard: int, nshards: int) -> None:
